@@ -271,5 +271,10 @@ func (m *toolManager) handleCallTool(
 		return newJSONRPCErrorResponse(req.ID, ErrCodeInternal, errMsg, nil), nil
 	}
 
+	// A tool result's content is an array on the wire, never null.
+	if result != nil && result.Content == nil {
+		result.Content = []Content{}
+	}
+
 	return result, nil
 }
